@@ -15,6 +15,13 @@ operations are `decode(symbol)`.
              (|S|^2 + 1 calls on one object, as a simulation would do); every
              call is compared with the same table.
 
+Reference ("fresh decoder"): a newly built decoder object per symbol.  In the
+walk cases with writable arguments each reference decode runs in its own
+forked child of the still-clean case process (the runner forks one process
+per case), so state that panqec keeps outside the decoder object (module
+globals, mutable default arguments, class attributes) cannot leak into the
+reference; elsewhere the reference objects are built in the case's process.
+
 Oracle (differential, no panqec code decides anything):
  (i)   outcome after a history == outcome of a fresh decoder (dtype, shape and
        bytes of the returned array, or the exception type);
@@ -29,6 +36,9 @@ Oracle (differential, no panqec code decides anything):
        which MBP reads) and get_weights(code, p) are identical after every call.
 """
 import hashlib
+import os
+import pickle
+import traceback
 
 import numpy as np
 
@@ -60,7 +70,8 @@ LEVEL_NOTE = ('Trusted: mc/gf2.py (alphabet = image of the syndrome map, validit
               'state that shows only through timing or memory.')
 RULE = ('symbols = (syndrome, complete tie-break script); alphabet = all 2^rank valid syndromes (codes with <= 64) or '
         '{0} + syndromes of all weight-1 X/Y/Z errors (3-D codes and union-find/quick; the sector-wise zero syndromes '
-        'are the pure-X / pure-Z ones) + for sweep decoders the first weight-2 Z-error syndromes that reach a '
+        'are the pure-X / pure-Z ones; alphabet w1x = weight-1 X errors only, used on non-cubic X-cube lattices) + for '
+        'sweep decoders the first weight-2 Z-error syndromes that reach a '
         'tie-break, each with every answer script. exact mode: every history of the stated length from the initial '
         'state, each on its own decoder object (a prefix is re-executed for each extension; it is judged every time but '
         'counted once); walk mode: ONE object, de Bruijn walk covering every ordered pair of symbols as consecutive '
@@ -72,7 +83,9 @@ RULE = ('symbols = (syndrome, complete tie-break script); alphabet = all 2^rank 
         'the reused decoder alike (D9 tie-break TypeError, D16 MBP on uint8) are equal outcomes, counted in '
         'calls_raising_like_fresh, and belong to C05.')
 ASSUMPTIONS = [
-    'a fresh decoder built on the same (code, error model, rate, parameters) is the reference for "pure function"',
+    'a fresh decoder built on the same (code, error model, rate, parameters) is the reference for "pure function"; '
+    'in the writable walk cases it runs in a forked child of the clean per-case process (runner ISOLATE), so a case '
+    'must start in a process that has not decoded anything',
     'stabilizer_matrix of the tiny codes is correct (C01/C02); the alphabet is the span of single-qubit syndromes under mc/gf2',
     'for the sweep decoders the generator reached through _rng is the only source of randomness (any other draw would '
     'show as a fresh/fresh or fresh/reused difference)',
@@ -85,25 +98,30 @@ BOUNDS = {
               'tie_syndromes_max': 6, 'tie_scripts_per_syndrome_max': 81, 'mbp_max_bp_iter': 3,
               'union_find_alphabet': 'weight-1', 'forms_exact': ['uint8', 'int64'],
               'forms_walk': ['uint8', 'int64', 'uint8-ro', 'int64-ro'],
-              'noise': 'PauliErrorModel(0.2, 0.3, 0.5), p = 0.1',
+              'noise': 'PauliErrorModel(0.2, 0.3, 0.5), p = 0.1; BP-OSD also with XZZX-deformed noise: (0.05, 0.05, 0.9) on '
+                       'all four 2-D codes and (0.2, 0.3, 0.5) on Toric2D 2x2, channel_update off and on',
               'codes': 'RotatedPlanar2D 2x2 (8 syndromes), Planar2D 2x2 (16), RotatedPlanar2D 3x2 (32), Toric2D 2x2 (64); '
-                       'weight-1 alphabets: XCube 2x2x2, Toric3D 2x2x2, Planar3D 2x2x2, RotatedPlanar3D 2x2x2'},
+                       'weight-1 alphabets: XCube 2x2x2, Toric3D 2x2x2, Planar3D 2x2x2, RotatedPlanar3D 2x2x2; '
+                       'weight-1 X-error alphabet: XCube 4x2x2 (non-cubic)'},
     'thorough': {'history_length': '2; 3 where the alphabet has <= 32 symbols (MBP: <= 16), and for the 64-symbol '
                                    'alphabet in the uint8 form (Matching; BP-OSD with osd_order 10)',
                  'depth3_max_alphabet': 64, 'depth3_all_forms_max': 32, 'full_alphabet_max': 64,
                  'tie_syndromes_max': 200, 'tie_scripts_per_syndrome_max': 81, 'mbp_max_bp_iter': 3,
                  'union_find_alphabet': 'full', 'forms_exact': ['uint8', 'int64'],
                  'forms_walk': ['uint8', 'int64', 'uint8-ro', 'int64-ro'],
-                 'noise': 'PauliErrorModel(0.2, 0.3, 0.5) and its XZZX-deformed version (Matching, one BP-OSD '
-                          'configuration), p = 0.1',
+                 'noise': 'PauliErrorModel(0.2, 0.3, 0.5) and its XZZX-deformed version (Matching, BP-OSD), XZZX-deformed '
+                          '(0.05, 0.05, 0.9) (BP-OSD, channel_update off and on), p = 0.1',
                  'codes': 'quick list + RotatedPlanar2D 2x3, Toric2D 3x3 (union-find, weight-1), BP-OSD with weight-1 '
                           'alphabets on the smallest size of 14 further classes (undeformed and first deformation), '
                           'sweep decoders on Toric3D 2x2x3 / 3x3x3, RotatedToric3D 2x2x2, RotatedPlanar3D 3x3x3 and the '
-                          'bare sweepers'},
+                          'bare sweepers; non-cubic X-cube lattices 4x2x2 and 2x3x2 (weight-1), 3x3x2 and 4x3x2 '
+                          '(weight-1 X errors)'},
 }
+ISOLATE = True            # one forked process per case: module-level state of panqec starts clean
 BUDGET_S = {'quick': 900, 'thorough': 10800}
 LEAF_CAP = 81            # tie-break scripts per syndrome (a hit sets 'capped')
 NOISE = [0.2, 0.3, 0.5]
+BIASED = [0.05, 0.05, 0.9]       # with the XZZX deformation: strongly non-uniform per-qubit flip probabilities
 P = 0.1
 FORMS = {'uint8': (np.uint8, False), 'int64': (np.int64, False),
          'uint8-ro': (np.uint8, True), 'int64-ro': (np.int64, True)}
@@ -113,9 +131,10 @@ TABLE_NAMES = ['p_i@p', 'p_x@p', 'p_y@p', 'p_z@p', 'p_i@0.5', 'p_x@0.5', 'p_y@0.
 
 
 # ------------------------------------------------------------------ case list
-def _cfg(decoder, cls, size, alphabet, deformation=None, noise_deformation=None, params=None, ties=0):
+def _cfg(decoder, cls, size, alphabet, deformation=None, noise_deformation=None, params=None, ties=0, noise=None):
     return {'decoder': decoder, 'cls': cls, 'size': list(size), 'deformation': deformation,
-            'noise_deformation': noise_deformation, 'params': params or {}, 'alphabet': alphabet, 'ties': ties}
+            'noise': list(noise or NOISE), 'noise_deformation': noise_deformation, 'params': params or {},
+            'alphabet': alphabet, 'ties': ties}
 
 
 def _emit(out, cfg, depth, exact_forms, walk_forms, shards):
@@ -168,8 +187,14 @@ def cases(tier, seed):
                 for osd in (0, 10):
                     emit_2d(_cfg('BeliefPropagationOSDDecoder', cls, size, 'full', deformation=deformation,
                                  params={'channel_update': cu, 'osd_order': osd}), n_sym, 1.2, deep_ok=osd == 10)
-    emit_2d(_cfg('BeliefPropagationOSDDecoder', 'Toric2DCode', [2, 2], 'full', noise_deformation='XZZX',
-                 params={'channel_update': True, 'osd_order': 10}), 64, 1.2, deep_ok=False)
+    # non-uniform per-qubit priors (Clifford-deformed noise, moderately and strongly biased): a decoder whose first
+    # call runs on another prior than its later calls is invisible with uniform priors (min-sum BP is scale invariant)
+    for cls, size, n_sym in codes2d:
+        for noise in ((NOISE, BIASED) if (n_sym == 64 or not quick) else (BIASED,)):
+            for cu in (False, True):
+                emit_2d(_cfg('BeliefPropagationOSDDecoder', cls, size, 'full', noise=noise, noise_deformation='XZZX',
+                             params={'channel_update': cu, 'osd_order': 10}), n_sym, 1.2,
+                        deep_ok=(noise is BIASED and n_sym <= 16))
     # --- MBP (tiny n, max_bp_iter=3), CSS and non-CSS
     mbp = [('RotatedPlanar2DCode', [2, 2], 8, 8.0), ('Planar2DCode', [2, 2], 16, 9.0)]
     if not quick:
@@ -188,6 +213,14 @@ def cases(tier, seed):
     # --- XCube matching (embeds three matching decoders and a BP-OSD decoder)
     _emit(out, _cfg('XCubeMatchingDecoder', 'XCubeCode', [2, 2, 2], 'w1'), 2,
           ['uint8'] if quick else fe, fw, 16)
+    # non-cubic X-cube lattices: the three projection grids differ in shape (state kept per grid shape, or per
+    # process, only shows here); (4,2,2) is the smallest size on which a stale grid cell changes a weight-1 answer
+    _emit(out, _cfg('XCubeMatchingDecoder', 'XCubeCode', [4, 2, 2], 'w1x'), 2, ['uint8'], ['int64', 'uint8-ro'], 16)
+    if not quick:
+        _emit(out, _cfg('XCubeMatchingDecoder', 'XCubeCode', [4, 2, 2], 'w1'), 2, ['uint8'], ['int64'], 64)
+        _emit(out, _cfg('XCubeMatchingDecoder', 'XCubeCode', [2, 3, 2], 'w1'), 2, ['uint8'], ['int64'], 48)
+        _emit(out, _cfg('XCubeMatchingDecoder', 'XCubeCode', [3, 3, 2], 'w1x'), 2, ['uint8'], ['int64'], 24)
+        _emit(out, _cfg('XCubeMatchingDecoder', 'XCubeCode', [4, 3, 2], 'w1x'), 2, ['uint8'], ['int64'], 32)
     # --- BP-OSD on 3-D codes, weight-1 alphabet
     bp3 = [('Toric3DCode', [2, 2, 2]), ('XCubeCode', [2, 2, 2])]
     if not quick:
@@ -229,10 +262,14 @@ class _Ctx:
         self.code = getattr(C, case['cls'])(*case['size'])
         if case['deformation']:
             self.code.deform(case['deformation'])
-        self.em = PauliErrorModel(*NOISE, deformation_name=case['noise_deformation'])
+        self.em = PauliErrorModel(*case.get('noise', NOISE), deformation_name=case['noise_deformation'])
         self.dec_cls = getattr(D, case['decoder'])
         self.params = dict(case['params'])
         self.random = case['decoder'] in RANDOMISED
+        # reference outcomes from clean child processes: in the walk cases with writable arguments (one or two per
+        # configuration; a fork costs ~10 ms, so not in every shard).  Elsewhere the reference decoders are new
+        # objects in this case's own process, which starts clean but accumulates whatever panqec keeps globally.
+        self.clean_reference = case['mode'] == 'walk' and not case['form'].endswith('-ro')
         self.n = self.code.n
         self.H = gf2.matrix_rows(self.code.stabilizer_matrix)
         self.m = len(self.H)
@@ -292,6 +329,21 @@ class _Ctx:
         mutated = (a.tobytes() != ref) or a.dtype != FORMS[form][0] or a.shape != (self.m,)
         return oc + (pts,), mutated
 
+    def clean_call(self, sym, form):
+        """decode sym on a newly built decoder inside a forked child of this process.  While the fresh table is
+        built this process has not decoded anything, so the child is a clean process: state that panqec keeps outside
+        the decoder object (module globals, default arguments, class attributes) cannot leak between reference runs.
+        Returns (outcome, argument_mutated, name of a changed noise table or None)."""
+        def job():
+            oc, mut = self.call(self.new(), sym, form)
+            return oc, mut, self.last_msg, self.table_diff()
+        if not self.clean_reference:
+            return job()[:2] + (self.table_diff(),)
+        oc, mut, msg, td = _in_child(job)
+        self.evals += 1
+        self.last_msg = msg
+        return oc, mut, td
+
     def valid(self, oc, s):
         if oc[0] != 'ok':
             return None
@@ -301,11 +353,53 @@ class _Ctx:
         return gf2.syndrome(self.H, gf2.vec_to_int(r), self.n) == s
 
 
+def _in_child(fn):
+    """Run fn() in a forked child and return its (picklable) result; a failing child is a harness error."""
+    r, w = os.pipe()
+    pid = os.fork()
+    if pid == 0:
+        status = 0
+        try:
+            os.close(r)
+            try:
+                data = pickle.dumps(('ok', fn()))
+            except BaseException:
+                data = pickle.dumps(('error', traceback.format_exc()))
+            view = memoryview(data)
+            while view:
+                k = os.write(w, view[:1 << 16])
+                view = view[k:]
+            os.close(w)
+        except BaseException:
+            status = 1
+        finally:
+            os._exit(status)
+    os.close(w)
+    chunks = []
+    with os.fdopen(r, 'rb') as f:
+        while True:
+            c = f.read(1 << 16)
+            if not c:
+                break
+            chunks.append(c)
+    os.waitpid(pid, 0)
+    data = b''.join(chunks)
+    if not data:
+        raise RuntimeError('reference child process died without an answer')
+    tag, val = pickle.loads(data)
+    if tag != 'ok':
+        raise RuntimeError('reference child process failed:\n' + val)
+    return val
+
+
 def _alphabet(ctx, kind):
     n, H = ctx.n, ctx.H
     gens = []
     for q in range(n):
         x, z = 1 << q, 1 << (n + q)
+        if kind == 'w1x':
+            gens.append(gf2.syndrome(H, x, n))
+            continue
         gens += [gf2.syndrome(H, x, n), gf2.syndrome(H, z, n), gf2.syndrome(H, x | z, n)]
     if kind == 'full':
         S = set(gf2.span(gens))
@@ -315,11 +409,12 @@ def _alphabet(ctx, kind):
 
 
 def _leaves(ctx, s, form):
-    """All complete tie-break scripts of syndrome s on fresh decoders -> [(script, outcome, mutated)], capped."""
+    """All complete tie-break scripts of syndrome s, each on a fresh decoder in a clean child process
+    -> [(script, outcome, mutated, changed table)], capped."""
     out, stack, capped = [], [()], 0
     while stack:
         sc = stack.pop()
-        oc, mut = ctx.call(ctx.new(), (s, sc), form)
+        oc, mut, td = ctx.clean_call((s, sc), form)
         pts = oc[4]
         if len(pts) > len(sc):
             for a in reversed(range(pts[len(sc)])):
@@ -328,7 +423,7 @@ def _leaves(ctx, s, form):
             if len(out) >= LEAF_CAP:
                 capped = 1
                 break
-            out.append((sc, oc, mut))
+            out.append((sc, oc, mut, td))
     return out, capped
 
 
@@ -365,7 +460,8 @@ def eval_case(case):
     def key_of(kind, hlen, **kw):
         # 'readonly' says whether the argument of the offending call was a read-only array
         k = {'kind': kind, 'decoder': case['decoder'], 'cls': case['cls'], 'size': list(case['size']),
-             'deformation': case['deformation'], 'noise_deformation': case['noise_deformation'],
+             'deformation': case['deformation'], 'noise': list(case.get('noise', NOISE)),
+             'noise_deformation': case['noise_deformation'],
              'params': dict(case['params']), 'css': bool(ctx.code.is_css), 'alphabet': case['alphabet'],
              'form': dt_name, 'readonly': readonly, 'mode': case['mode'], 'history_len': hlen}
         k.update(kw)
@@ -390,19 +486,23 @@ def eval_case(case):
         return res
 
     # ---- alphabet of symbols and table of fresh-decoder outcomes (reference form: writable, same dtype)
-    syndromes = _alphabet(ctx, 'full' if case['alphabet'] == 'full' else 'w1')
+    syndromes = _alphabet(ctx, case['alphabet'] if case['alphabet'] in ('full', 'w1x') else 'w1')
     if case['alphabet'] == 'full' and len(syndromes) > 64:
         raise AssertionError('full alphabet larger than the stated bound')
     symbols, fresh, fresh_valid = [], {}, {}
 
     def add_syndrome(s, only_if_tie=False):
         leaves, capped = _leaves(ctx, s, dt_name)
-        if only_if_tie and not any(len(oc[4]) for _, oc, _ in leaves):
+        if only_if_tie and not any(len(lf[1][4]) for lf in leaves):
             return False
         res['capped'] |= capped
         vals = set()
-        for sc, oc, mut in leaves:
+        for sc, oc, mut, td in leaves:
             sym = (s, sc)
+            if td:
+                X['table_mutations'] += 1
+                report('table-mutated', 1, {'history': [show(sym)], 'table': td,
+                                            'message': 'noise table bytes changed by the first decode of a fresh decoder'})
             symbols.append(sym)
             fresh[sym] = oc
             outcomes.add(_digest(oc[:4]))
@@ -439,12 +539,14 @@ def eval_case(case):
         X['table_mutations'] += 1
         report('table-mutated', 1, {'table': td, 'message': 'noise table bytes changed while building the fresh table'})
         return finish()
-    # two fresh decoders must agree (otherwise "fresh decoder" is not a reference): probe the first symbols again
+    # two fresh decoders must agree (otherwise "fresh decoder" is not a reference): probe the first symbols again,
+    # now in this process (the first of these calls is still the first decode of the process)
     for sym in symbols[:4]:
         oc, _ = ctx.call(ctx.new(), sym, dt_name)
         if oc != fresh[sym]:
             report('history-dependence', 1, {'history': [show(sym)],
-                                             'message': 'two freshly built decoders disagree on the same syndrome'})
+                                             'message': 'two freshly built decoders disagree on the same syndrome'},
+                   state_outside_object=True)
 
     def check(d, sym, hist, hlen, first_time=True):
         """decode sym on d, which has decoded hist[:-1] (hist ends with sym; for the walk only the last two
@@ -478,6 +580,12 @@ def eval_case(case):
                     det['tie_points_reused'] = list(oc[4])
                     det['tie_points_fresh'] = list(want[4])
                 kw = {'exc': oc[1]} if oc[0] == 'raise' else {}
+                if hlen == 1:
+                    # first call on a newly built object, yet not the answer of a clean process: the state that
+                    # differs lives outside the decoder object (module / class / default-argument level)
+                    kw['state_outside_object'] = True
+                    det['message'] = ('a newly built decoder in a process that has decoded other syndromes before '
+                                      'answers differently from a newly built decoder in a clean process')
                 report('history-dependence', hlen, det, count=first_time, **kw)
         elif oc[0] == 'raise':
             X['calls_raising_like_fresh'] += c
